@@ -173,13 +173,16 @@ class H1(Case):
              "numpy zeros(dtype='complex128') in oqupy.gradient -> object array (NpProxy)")
     env = {"noconj": True, "np_proxy_modules": NP_PROXY}
 
-    def __init__(self, nenv, N, bond, rank=4, controls="none", part="all", d=2, timeout_s=300, som=False):
+    def __init__(self, nenv, N, bond, rank=4, controls="none", part="all", d=2, timeout_s=300, som=False, cplx=False):
         """part: 'all' | 'final' (last step only) | 'nonfinal' (all other steps)
         som: put the difference into sum-of-monomials normal form with z3's rewriter before the query
         (vf/poly.py); needed for the larger identities, slower than the plain query for the small ones"""
         self.nenv, self.N, self.bond, self.rank, self.controls, self.part, self.d = nenv, N, bond, rank, controls, part, d
         self.som = som
-        tag = "env%d_N%d_b%d_r%d_%s%s" % (nenv, N, bond, rank, controls, "" if d == 2 else "_d%d" % d)
+        # cplx: complex-valued initial state and linear target (non-Hermitian in general), so that the
+        # objective and every gradient entry have an imaginary part that is an obligation of its own
+        self.cplx = cplx
+        tag = "env%d_N%d_b%d_r%d_%s%s%s" % (nenv, N, bond, rank, controls, "" if d == 2 else "_d%d" % d, "_cplx" if cplx else "")
         if part == "nonfinal" and nenv >= 2 and rank == 4:
             # defect class: several environments whose MPO tensors do not commute on the
             # system leg, derivative w.r.t. a propagator of a step before the last one
@@ -188,7 +191,8 @@ class H1(Case):
             self.id = "H1/" + tag
         else:
             self.id = "H1/%s_%s" % (tag, part)
-        self.bounds = {"d": d, "envs": nenv, "N": N, "bond": bond, "rank": rank, "controls": controls, "steps": part}
+        self.bounds = {"d": d, "envs": nenv, "N": N, "bond": bond, "rank": rank, "controls": controls, "steps": part,
+                       "complex_state_and_target": cplx}
         self.timeout_s = timeout_s
 
     def steps(self):
@@ -205,8 +209,8 @@ class H1(Case):
             envs.append((Meff, caps))
         P1 = [lib.gen_prop(inp, "p%d" % k, d) for k in range(N)]
         P2 = [lib.gen_prop(inp, "q%d" % k, d) for k in range(N)]
-        rho0 = inp.arr("r", (d, d))
-        target = inp.arr("t", (d, d))
+        rho0 = inp.arr("r", (d, d), cplx=self.cplx)
+        target = inp.arr("t", (d, d), cplx=self.cplx)
         control, pre, post = make_controls(inp, d, CONTROL_SPECS[self.controls](N), N, sparse=self.controls.endswith('sparse'))
         system = EntrySystem(inp, d, P1, P2)
         params = np.zeros((2 * N, D * D))
@@ -262,22 +266,22 @@ class H2(Case):
              "numpy zeros(dtype='complex128') in oqupy.gradient -> object array (NpProxy)")
     env = {"noconj": True, "np_proxy_modules": NP_PROXY}
 
-    def __init__(self, N, M, d=2):
-        self.N, self.M, self.d = N, M, d
-        self.id = "H2/chain_rule_N%d_M%d" % (N, M)
-        self.bounds = {"d": d, "N": N, "M": M}
+    def __init__(self, N, M, d=2, cplx=False):
+        self.N, self.M, self.d, self.cplx = N, M, d, cplx
+        self.id = "H2/chain_rule_N%d_M%d%s" % (N, M, "_cplx" if cplx else "")
+        self.bounds = {"d": d, "N": N, "M": M, "complex_adjoint_and_derivatives": cplx}
 
     def run(self, inp):
         d, N, M = self.d, self.N, self.M
         D = d * d
-        A = [inp.arr("A%d" % n, (D, D, D, D)) for n in range(N)]
+        A = [inp.arr("A%d" % n, (D, D, D, D), cplx=self.cplx) for n in range(N)]
         P1 = [lib.gen_prop(inp, "p%d" % k, d) for k in range(N)]
         P2 = [lib.gen_prop(inp, "q%d" % k, d) for k in range(N)]
         params = inp.arr("u", (2 * N, M))
         dt = inp.real("dt", lo=0.01, hi=1)
         # user-supplied derivative of the half-step propagator w.r.t. parameter j at the
         # parameter values x: an arbitrary (here: affine in x and dt, symbolic coefficients) map
-        K0 = [inp.arr("K0_%d" % j, (D, D)) for j in range(M)]
+        K0 = [inp.arr("K0_%d" % j, (D, D), cplx=self.cplx) for j in range(M)]
         K1 = [[inp.arr("K1_%d_%d" % (j, i), (D, D)) for i in range(M)] for j in range(M)]
         K2 = [inp.arr("K2_%d" % j, (D, D)) for j in range(M)]
         calls = []
@@ -530,6 +534,149 @@ class H5(Case):
 
 
 # --------------------------------------------------------------------------
+# H6: numerically differentiated propagators -- the Python layer around numdifftools
+# --------------------------------------------------------------------------
+class SymArr(np.ndarray):
+    """object array of S whose .real / .imag are element-wise (numpy returns the array itself / zeros for
+    object arrays, which would hide the real-imaginary split of the code under test)"""
+
+    @property
+    def real(self):
+        out = np.empty(self.shape, dtype=object)
+        for idx in np.ndindex(*self.shape):
+            out[idx] = S.of(self[idx]).real
+        return out
+
+    @property
+    def imag(self):
+        out = np.empty(self.shape, dtype=object)
+        for idx in np.ndindex(*self.shape):
+            out[idx] = S.of(self[idx]).imag
+        return out
+
+
+def expm_series(m):
+    """stand-in for expm: 1 + A + A^2/2 (differentiable in closed form; quadratic in the parameters when
+    the Liouvillian is affine in them)"""
+    m = np.asarray(m)
+    out = np.identity(m.shape[0]) + m + (m @ m) / 2
+    if out.dtype == object:
+        return out.view(SymArr)
+    return out
+
+
+class ExactJacobian:
+    """stand-in for numdifftools.Jacobian with its contract J(f)(x)[:, i, :] = d f / d x_i for a matrix
+    valued f: central difference with step 1, EXACT for the (at most quadratic) functions used here"""
+
+    def __init__(self, f):
+        self.f = f
+
+    def __call__(self, x):
+        x = list(x)
+        cols = []
+        for i in range(len(x)):
+            xp, xm = list(x), list(x)
+            xp[i] = x[i] + 1
+            xm[i] = x[i] - 1
+            cols.append((np.asarray(self.f(xp)) - np.asarray(self.f(xm))) / 2)
+        D = cols[0].shape[0]
+        out = np.empty((D, len(x), cols[0].shape[1]), dtype=cols[0].dtype)
+        for i, c in enumerate(cols):
+            out[:, i, :] = c
+        return out
+
+
+def dissipator_oracle(inp, g, A):
+    """g (A rho A^T - 1/2 A^T A rho - 1/2 rho A^T A), real A, row-major vectorisation, entry by entry"""
+    d = A.shape[0]
+    AtA = A.T @ A
+    L = np.empty((d * d, d * d), dtype=complex if inp.mode == "real" else object)
+    for i in range(d):
+        for j in range(d):
+            for k in range(d):
+                for l in range(d):
+                    v = A[i, k] * A[j, l]
+                    if j == l:
+                        v = v - AtA[i, k] / 2
+                    if i == k:
+                        v = v - AtA[l, j] / 2
+                    L[i * d + j, k * d + l] = g * v
+    return L
+
+
+class H6(Case):
+    """numerically differentiated propagator derivatives (no user-supplied derivative): real
+    ParameterizedSystem.get_propagator_derivatives -> halfstep_propagator_derivative -> jacfun.  The finite
+    differences themselves are outside the claim (numdifftools -> exact stand-in); what is checked is the
+    Python layer: real and imaginary part differentiated and recombined, parameter row 2n / 2n+1, index of the
+    parameter -- in particular at parameter values where the half-step propagator is REAL (amplitude exactly
+    0) while its derivative is complex."""
+    functions = ("ParameterizedSystem.get_propagator_derivatives", "ParameterizedSystem.halfstep_propagator_derivative",
+                 "ParameterizedSystem.liouvillian", "system._liouvillian")
+    stubs = ("numdifftools.Jacobian -> exact central difference (exact for quadratic functions), layout [:, i, :] = d/dx_i",
+             "scipy.linalg.expm -> 1 + A + A^2/2",
+             "H(x) = sum_i x_i H_i (real symmetric-free symbolic matrices), one dissipator with symbolic constant rate and real operator")
+    timeout_s = 120
+
+    def __init__(self, M, N=2, d=2, zero=False):
+        """zero: every parameter row is exactly 0 (the all-zero initial guess of an optimal-control run);
+        otherwise every row is symbolic.  Two separate cases: code that (wrongly) branches on the value of
+        the propagator forks on symbolic rows, which the solver may not decide; the all-zero case has no
+        symbolic branch."""
+        self.M, self.N, self.d, self.zero = M, N, d, zero
+        self.id = "H6/numdiff_derivatives_M%d_N%d_%s" % (M, N, "zero_amplitude" if zero else "symbolic_rows")
+        self.bounds = {"d": d, "M": M, "N": N, "dt": 0.2, "parameter_rows": "all exactly 0" if zero else "symbolic"}
+        from vf.env import BUILTIN_SHADOWS
+        self.env = {"extra": {"oqupy.system.float": BUILTIN_SHADOWS["float"]}}
+
+    def run(self, inp):
+        d, M, N = self.d, self.M, self.N
+        dt = 0.2
+        Hs = [inp.arr("H%d" % i, (d, d)) for i in range(M)]
+        gam = inp.real("gam", lo=0, hi=2)
+        A = inp.arr("A", (d, d))
+        if M == 1:
+            ham = lambda x: x * Hs[0]
+            gf, af = (lambda x: gam), (lambda x: A)
+        else:
+            ham = lambda x, y: x * Hs[0] + y * Hs[1]
+            gf, af = (lambda x, y: gam), (lambda x, y: A)
+        params = inp.arr("u", (2 * N, M))
+        if self.zero:
+            # control amplitude exactly 0 -> real Liouvillian, real half-step propagator, complex derivative
+            params = inp.const(np.zeros((2 * N, M)))
+        from vf.env import patched
+        obs = []
+        with patched({"oqupy.system.expm": expm_series, "oqupy.system.Jacobian": ExactJacobian}):
+            system = oqupy.ParameterizedSystem(ham, gammas=[gf], lindblad_operators=[af])
+            pd = system.get_propagator_derivatives(dt, params)
+            L0 = dissipator_oracle(inp, gam, A)
+            L1 = [commutator_oracle(inp, Hs[i]) for i in range(M)]
+            for step in range(N):
+                derivs = pd(step)
+                for half in (0, 1):
+                    row = params[2 * step + half]
+                    Ax = L0 * (dt / 2)
+                    for i in range(M):
+                        Ax = Ax + (row[i] * (dt / 2)) * L1[i]
+                    obs.append(Ob.holds("step %d half %d: one derivative per parameter" % (step, half), len(derivs[half]) == M))
+                    for i in range(min(M, len(derivs[half]))):
+                        dA = L1[i] * (dt / 2)
+                        exact = dA + (dA @ Ax + Ax @ dA) / 2          # d/dx_i [1 + A + A^2/2]
+                        obs.append(Ob.eq("step %d half %d: d propagator / d parameter %d (row %d%s)"
+                                         % (step, half, i, 2 * step + half, ", amplitude 0" if self.zero else ""),
+                                         np.asarray(derivs[half][i]), exact))
+            if inp.mode == "real":
+                # layout of the stand-in == layout of the real numdifftools.Jacobian
+                from numdifftools import Jacobian as RealJacobian
+                f = lambda x: np.real(expm_series(system.liouvillian(*x) * dt / 2.0))
+                x0 = [0.3 + 0.1 * i for i in range(M)]
+                obs.append(Ob.eq("Jacobian stand-in has numdifftools' layout", ExactJacobian(f)(x0), RealJacobian(f)(x0)))
+        return Guard(inp).all(obs)
+
+
+# --------------------------------------------------------------------------
 def cases(tier):
     cs = [
         H1(1, 2, 2, som=True),
@@ -541,6 +688,8 @@ def cases(tier):
         H3(1, 2, 2, 4, "inner"), H3(2, 2, 2, 4, "none"),
         H4(1, 2, 2),
         H5(2, 1),
+        H1(1, 2, 1, som=True, cplx=True), H2(2, 1, cplx=True),
+        H6(1, zero=True), H6(2, zero=True), H6(1), H6(2),
     ]
     if tier == "thorough":
         # two/three environments with rank-4 tensors and N = 3 (4^13 monomials per entry) are out of reach
@@ -553,5 +702,6 @@ def cases(tier):
             H1(3, 2, 1, part="final", timeout_s=900, som=True),
             H1(2, 3, 2, rank=3, timeout_s=900, som=True),
             H2(3, 2), H3(2, 3, 2, 3, "ends"), H3(1, 3, 2, 4, "ends"), H4(2, 2, 1), H5(2, 2, dts=(0.1, 0.25)),
+            H1(1, 2, 2, som=True, cplx=True), H1(2, 2, 1, part="final", som=True, cplx=True), H2(2, 2, cplx=True), H6(2, N=3), H6(2, N=3, zero=True),
         ]
     return cs
